@@ -139,3 +139,7 @@ C('C34', 'identity and layout monitors over generated include() graphs (chains, 
 C('C37', 'history monitor with a value model before the close and an error-demand after it, on private copies of a gcc-built library (verified unmapped through /proc/self/maps) in in-line and out-of-line ABI mode; child survival (ASan, crash attribution by breadcrumb) is part of the verdict',
   'Exploration: random histories of 0-25 accesses before ffi.dlclose() (functions fetched or not, scalar/array/struct globals read and written, addressof) and 6-25 after it: reading/writing any global, fetching an unfetched function, addressof of an untouched name must raise; closing again must be harmless; a never-closed RTLD_GLOBAL decoy copy makes accidental dlsym failures impossible.',
   'Any exception except SystemError/MemoryError counts as refusing; re-fetching names already cached before the close is outside the statement (counted).')
+
+C('C28', 'stub harness: the real _embedding.h compiled as two libraries against a stubbed CPython API, with logging/yield-injection wrapper macros around every CAS and mutex operation; event log + offline checker + logical deadlock detector; one process per scenario; TSan build as observation',
+  'Exploration: scenarios of 1-3 threads x 1-2 libraries x init behaviour {ok, fails, calls its own extern function, calls the other library} x 1-3 first calls per thread in normal and heavy-delay mode; Py_InitializeEx <= 1, init code per library <= 1, no extern-Python function of a library on another thread before its init finished, right results (0 after a failed init), every call returns; evidence lists distinct interleaving signatures.',
+  'CPython is stubbed (GIL = recursive mutex); all schedules are not enumerated; real-process embedding runs are not part of the check.')
